@@ -174,6 +174,8 @@ def project(prop, op, line):
     sends = [t for t in ht if t.startswith("send:")]
     ret = [t for t in ht if t.startswith("ret=")]
     queues = ["%s q=%s" % (c["name"], c.get("q", "")) for c in C]
+    if op == "tcpconn":   # what came back on the connection; what it left behind
+        return repr((outs, gone, [(s["name"], s["slotlist"]) for s in S], Rr if prop == "C17" else None))
     if prop == "C11":   # which request holds which identifier; the allocation cursor
         return repr(([(s["name"], s.get("next"), s.get("ss"), [(e[0], e[1]) for e in s["slotlist"]]) for s in S], [(f[1], f[2]) for f in fwd],
                      [bytes.fromhex(f[3])[1] for f in fwd], [(c["name"], c.get("cache")) for c in C]))
@@ -420,3 +422,62 @@ def rewrite_history(exe, rng, idx):
         h.send("rewrite rw%d %s" % (rng.randrange(3), " ".join("%d:%s" % (t, R.hexs(v)) for t, v in attrs)))
         h.tag("forwarded")
     return h.finish(kind="rewrite")
+
+
+# ---------------------------------------------------------------- whole TCP connections through the real listener side
+def tcp_history(exe, rng, idx):
+    """TCP client blocks with overlapping host lists (exact, prefixes), peers connecting from addresses inside and outside them;
+    each connection carries a few requests (valid, answered locally or forwarded; unsigned; signed under another block's secret;
+    malformed) cut into arbitrary segments; some servers answer between connections"""
+    cfg = W.rand_cfg(rng, rewrites=False, ttl=False, nclients=rng.randrange(1, 4), nservers=rng.randrange(1, 3), types=[2])
+    for i, c in enumerate(cfg.clients):
+        c["rwuser"] = None
+        c["reqma"] = c["reqmap"] = False
+        # overlapping blocks: exact hosts and networks around 127.0.1.x
+        c["host"] = rng.choice(["127.0.1.%d" % (i + 1), "127.0.1.%d" % rng.randrange(1, 4), "127.0.1.0/24", "127.0.1.0/30", "127.0.0.0/8", "127.0.1.2/31"])
+    cfg.opts["verifyeap"] = 0
+    names = [s["name"] for s in cfg.servers]
+    cfg.realms = [dict(name=b"example.org", srv=names, acc=names, msg=None, accresp=False),
+                  dict(name=b"*", srv=None, acc=None, msg=b"no such realm", accresp=True)]
+    h = Hist(exe, rng, cfg)
+    if not h.alive:
+        return h.finish(kind="cfg-crash")
+    nconn = 0
+    for step in range(rng.randrange(3, 9)):
+        if h.s.dead:
+            break
+        src = rng.choice(["127.0.1.1", "127.0.1.2", "127.0.1.3", "127.0.1.4", "127.0.2.1", "127.0.0.9", "127.0.1.200"])
+        # whose secret the peer uses: the block it should be attributed to (first match), or another one
+        import ipaddress
+        def contains(c):
+            hh = c["host"]
+            return ipaddress.ip_address(src) in (ipaddress.ip_network(hh, strict=False) if "/" in hh else ipaddress.ip_network(hh + "/32"))
+        first = next((c for c in cfg.clients if contains(c)), None)
+        signer = first if first is not None and rng.random() < 0.8 else rng.choice(cfg.clients)
+        h.cl = [signer]
+        h.ncl = 1
+        pkts = []
+        for _ in range(rng.randrange(1, 5)):
+            r = rng.random()
+            code = rng.choice([1, 1, 4, 12, 40])
+            user = rng.choice([b"bob@example.org", b"al@nowhere", b"x"]) if code != 12 else False
+            p = h.make_request(0, code=code, user=user, ident=rng.randrange(256), extra=[], pwd=False, with_ma=(rng.random() < 0.85))
+            if r < 0.12:
+                p = mutate(rng, p)
+            elif r < 0.18:
+                p = p[:2] + bytes([0, rng.choice([0, 5, 19])]) + p[4:]     # impossible length field
+            pkts.append(p)
+        stream = b"".join(pkts)
+        cuts = sorted(set(rng.randrange(1, len(stream)) for _ in range(rng.randrange(0, 4)))) if len(stream) > 1 else []
+        segs = [stream[a:b] for a, b in zip([0] + cuts, cuts + [len(stream)])]
+        out = h.send("tcpconn %s %s e" % (src, " ".join("w:" + sg.hex() for sg in segs)))
+        nconn += 1
+        if " out:" in out:
+            h.tag("answered")
+        if first is None:
+            h.tag("unknown-peer")
+        elif signer is not first:
+            h.tag("other-blocks-secret")
+        if rng.random() < 0.3:
+            h.send("writer " + rng.choice(names))
+    return h.finish(kind="tcpconn", nconn=nconn)
